@@ -16,6 +16,7 @@ import random
 import re
 import shutil
 
+import dugen
 import vlib
 from vlib import Inconclusive
 from checks import c17 as corpus
@@ -159,6 +160,30 @@ def run(ctx):
             src += EXTRA
         corpus.write_prog(gd, src)
         progs.append(("gen/g%03d" % n, gd, "command-line-arguments", 0))
+    # the def-use chain space enumerated by TLC (spec/DuSpace.tla): origin kind x origin type x operation sequence x
+    # target kind, every chain rendered to one small function of ONE program
+    duk = 3 if thorough else 2
+    r = ctx.tlc_must_pass("DuSpace", data={"duops.ndjson": vlib.ndjson(dugen.ops_table()),
+                                           "duparams.ndjson": vlib.ndjson([{"k": duk, "origins": dugen.ORIGINS,
+                                                                            "otypes": dugen.OTYPES, "targets": dugen.TARGETS}])},
+                          subdir="duspace", timeout=900, deadlock=False)
+    if "DUSPACE" not in r.out:
+        raise Inconclusive("DuSpace did not reach its postcondition:\n" + r.out[-2000:])
+    allchains = dugen.parse_chains(r.out)
+    short = [c for c in allchains if len(c[2]) <= (2 if thorough else 1)]
+    longer = [c for c in allchains if len(c[2]) > (2 if thorough else 1)]
+    rnd.shuffle(longer)
+    duchains = short + longer[: (6000 if thorough else 1200)]
+    if len(short) < 500:
+        raise Inconclusive("DuSpace produced only %d short chains" % len(short))
+    cf = {"phi", "phin", "loop", "selfloop"}     # operations with control flow: final marks of ALL these functions (Closed)
+    duparts = {"duspace": [c for c in duchains if not (set(c[2]) & cf)], "duloops": [c for c in duchains if set(c[2]) & cf]}
+    dumarks = {"gen/duspace": 300, "gen/duloops": len(duparts["duloops"])}
+    for part, chs in duparts.items():
+        dud = os.path.join(ctx.work, "gen", part)
+        os.makedirs(dud)
+        open(os.path.join(dud, "main.go"), "w").write(dugen.render_program(chs))
+        progs.append(("gen/" + part, dud, "command-line-arguments", 0))
     repo_dirs = []
     for tool, d in corpus.REPO_DIRS:
         p = os.path.join(vlib.REPO, "analysis", tool, "testdata", d)
@@ -188,7 +213,7 @@ def run(ctx):
         k, (name, d, pref, sample) = j
         out = os.path.join(outdir, "f%04d.ndjson" % k)
         args = [du, "-dir", d, "-name", name, "-out", out, "-seed", str(ctx.seed), "-maxinstr", "400",
-                "-marks", str((1000 if thorough else 250) if name == "std" else 60), "-marksmaxinstr", "60"]
+                "-marks", str((1000 if thorough else 250) if name == "std" else dumarks.get(name, 60)), "-marksmaxinstr", "60"]
         if pref:
             args += ["-only", pref]
         if sample:
